@@ -25,6 +25,9 @@ type msgSpec struct {
 	MForm [][2]string `json:"multipart,omitempty"`
 	MFile int         `json:"multipart_files,omitempty"`
 	Prog  prog        `json:"program"`
+	// Limit is the X-Limit value the message carries (0: none); OverLimit: its body exceeds its own limit
+	Limit     int  `json:"x_limit,omitempty"`
+	OverLimit bool `json:"over_limit,omitempty"`
 
 	ref *h1.Msg
 }
@@ -42,6 +45,19 @@ type srvConf struct {
 	RMU    bool   `json:"reduce_memory_usage"`
 	Stream bool   `json:"stream_request_body"`
 	Expect string `json:"expect_mode"` // "none", "continue", "expect"
+	// HdrRecv: Server.HeaderReceived is set and returns RequestConfig{MaxRequestBodySize: n} for requests
+	// carrying "X-Limit: n" and the zero config for all others; Server.MaxRequestBodySize is then hdrRecvDefault.
+	HdrRecv bool `json:"header_received_hook"`
+}
+
+const hdrRecvDefault = 2000
+const plainDefault = 1 << 20
+
+func (c srvConf) defaultLimit() int {
+	if c.HdrRecv {
+		return hdrRecvDefault
+	}
+	return plainDefault
 }
 
 type connSpec struct {
@@ -55,7 +71,7 @@ type history struct {
 }
 
 var words = []string{"a", "b", "k1", "name", "v", "x-y", "q", "zeta", "id", "tok", "n0", "w_w"}
-var vals = []string{"1", "v", "abc", "hello", "a-b", "x.y", "000", "Zz", "val_1", "7e7", ""}
+var vals = []string{"1", "v", "abc", "hello", "a-b", "x.y", "000", "Zz", "val_1", "7e7", "", "SECRET-token-0123456789"}
 
 func pick(r *rand.Rand, l []string) string { return l[r.Intn(len(l))] }
 
@@ -76,6 +92,27 @@ func pairs(r *rand.Rand, max int, allowEmptyVal bool) [][2]string {
 		out = append(out, [2]string{k, v})
 	}
 	return out
+}
+
+// encArgs writes a query string / urlencoded body. Keys with an empty value are written with or without
+// '=' (key-only in the middle: "k&", and at the end), and a key-only flag is appended to a third of them:
+// a value-less key must read as "" whatever an earlier request left in the reused Args slots.
+func encArgs(r *rand.Rand, p *[][2]string) string {
+	if r.Intn(3) == 0 {
+		*p = append(*p, [2]string{[]string{"debug", "flag", "x-y"}[r.Intn(3)], ""})
+	}
+	if r.Intn(8) == 0 && len(*p) > 0 {
+		*p = append([][2]string{{"pre", ""}}, *p...)
+	}
+	var l []string
+	for _, kv := range *p {
+		if kv[1] == "" && (kv[0] == "debug" || kv[0] == "flag" || kv[0] == "pre" || r.Intn(2) == 0) {
+			l = append(l, kv[0])
+		} else {
+			l = append(l, kv[0]+"="+kv[1])
+		}
+	}
+	return strings.Join(l, "&")
 }
 
 func encPairs(p [][2]string) string {
@@ -201,8 +238,8 @@ func genMsg(r *rand.Rand, tag string, conf srvConf, nonClosing bool) *msgSpec {
 	target := tag
 	if kind != "invalid" && r.Intn(2) == 0 {
 		m.Query = pairs(r, 3, true)
-		if len(m.Query) > 0 {
-			target += "?" + encPairs(m.Query)
+		if qs := encArgs(r, &m.Query); len(m.Query) > 0 {
+			target += "?" + qs
 		}
 	}
 	var body []byte
@@ -225,7 +262,7 @@ func genMsg(r *rand.Rand, tag string, conf srvConf, nonClosing bool) *msgSpec {
 		}
 	case "form":
 		m.Form = pairs(r, 4, true)
-		body = []byte(encPairs(m.Form))
+		body = []byte(encArgs(r, &m.Form))
 		fmt.Fprintf(&h.b, "POST %s HTTP/1.1\r\n", target)
 		commonFields(r, &h, host)
 		h.line("Content-Type", "application/x-www-form-urlencoded")
@@ -331,6 +368,48 @@ func genMsg(r *rand.Rand, tag string, conf srvConf, nonClosing bool) *msgSpec {
 			body = []byte("abc")
 		}
 	}
+	if conf.HdrRecv && m.Valid {
+		// per-request body limit: the request is over its limit exactly when its own X-Limit (or, without
+		// one, the server default) is smaller than its body; what other requests of the connection
+		// carried must not matter.
+		limit := conf.defaultLimit()
+		switch kind {
+		case "form", "multipart", "big", "expect-ok", "expect-rej":
+			if !nonClosing && r.Intn(2) == 0 {
+				switch r.Intn(4) {
+				case 0:
+					limit = len(body) + r.Intn(4)
+				case 1:
+					limit = []int{16, 300, 5000}[r.Intn(3)]
+				case 2:
+					limit = 20000 + r.Intn(30000)
+				default:
+					limit = 1 + len(body)/2
+				}
+				if limit < 1 {
+					limit = 1
+				}
+				h.line("X-Limit", fmt.Sprint(limit))
+				m.Limit = limit
+			}
+		}
+		decoded := len(body)
+		if kind == "chunked" || kind == "bigchunked" {
+			msgs, _ := h1.ParseRequests(append(append([]byte{}, h.b.Bytes()...), append([]byte("\r\n"), body...)...))
+			decoded = len(msgs[0].Body)
+		}
+		if nonClosing && decoded > limit {
+			// (the last connection of a history must reach its final GET)
+			limit = decoded + 100
+			h.line("X-Limit", fmt.Sprint(limit))
+			m.Limit = limit
+		}
+		if decoded > limit {
+			m.Valid = false
+			m.Kind = "invalid:over-limit"
+			m.OverLimit = true
+		}
+	}
 	h.b.WriteString("\r\n")
 	h.b.Write(body)
 	m.Raw = h.b.Bytes()
@@ -369,6 +448,7 @@ func genHistory(r *rand.Rand) *history {
 	h.Conf.RMU = r.Intn(2) == 0
 	h.Conf.Stream = r.Intn(2) == 0
 	h.Conf.Expect = []string{"none", "continue", "continue", "expect"}[r.Intn(4)]
+	h.Conf.HdrRecv = !h.Conf.Stream && r.Intn(2) == 0
 	nconn := 2 + r.Intn(3)
 	for c := 0; c < nconn; c++ {
 		cs := &connSpec{Frag: fragKinds[r.Intn(len(fragKinds))]}
@@ -382,7 +462,7 @@ func genHistory(r *rand.Rand) *history {
 		}
 		for _, m := range cs.Msgs {
 			// byte-wise delivery of 8-20 KB bodies only multiplies the scripted conn's event log
-			if (m.Kind == "big" || m.Kind == "bigchunked") && (cs.Frag == "1" || cs.Frag == "13") {
+			if len(m.Raw) > 4000 && (cs.Frag == "1" || cs.Frag == "13") {
 				cs.Frag = "1000"
 			}
 		}
